@@ -299,7 +299,10 @@ class Program(object):
                 # conditional definitions at module level (try/except import
                 # fallbacks, ``if hasattr(math, ...)``): index every branch,
                 # first binding wins for imports, defs are all visible.
-                for sub in self._sub_bodies(st):
+                # the main body is indexed last so that its bindings win over fallbacks
+                # (except ImportError: alternative import; else: definition for old interpreters)
+                subs = self._sub_bodies(st)
+                for sub in subs[1:] + subs[:1]:
                     self._index_body(m, sub)
 
     @staticmethod
